@@ -106,7 +106,8 @@ def run_case(case):
         eid = 0x50000100 + k * 16 + rng.randrange(16)
         pel = dirrun.mk_pel(rng, eid, plid=0x50000001 if k % 2 == 0 else eid, ref=rng.choice(dirrun.REFS),
                             bmc=4242 if k == 0 else 5000 + k,
-                            sev=rng.choice([0x40, 0x20, 0x00, 0x51]), flags=rng.choice([0x2000, 0x2000, 0x6000, 0x8000]))
+                            sev=rng.choice([0x40, 0x20, 0x00, 0x51]), flags=rng.choice([0x2000, 0x2000, 0x6000, 0x8000]),
+                            creator=rng.choice(['O', 'O', 'B', 'H']))
         nm = '%s_%08X' % (rng.choice(['2023', 'm', 'B']), eid)
         files.append((nm, bytes(encode.encode(pel))))
         pels.append(pel)
